@@ -50,6 +50,43 @@ func init() {
 				extractLimitsRuleFor(P, R, "C13.g")
 				rangeSizesRule(P, R, "C13.g")
 			}},
+		Rule{ID: "C13.h", Explain: "boundary statements stay provable under the three-square rescaling: the difference must be = 2 (mod 4) and non-negative exactly when the statement holds, i.e. the rescaled bound is 4*bound - 2 for >= and 4*bound + 2 for <= (4*bound - 2*sign). The code uses 4*bound - 2 for both signs, so `m <= bound` with m == bound is refused by the prover (known finding K5).",
+			Run: func(P *Program, R *Report) {
+				fn := mustFunc(P, R, "C13.h", kNewPS)
+				if fn == nil {
+					return
+				}
+				be := P.bigEval(fn)
+				signAware := false
+				got := ""
+				allInstrs(fn, func(i ssa.Instruction) {
+					c, ok := i.(*ssa.Call)
+					if !ok || (bigMethod(c) != "Sub" && bigMethod(c) != "Add") {
+						return
+					}
+					ts := be.At[c]
+					if len(ts) == 3 && ts[1].String() == tmul(tconst(4), tsym("arg#3")).String() {
+						got = bigMethod(c) + "(" + ts[1].String() + ", " + ts[2].String() + ")"
+						// the correction term depends on the sign parameter (arg#1)
+						if strings.Contains(ts[2].String(), "arg#1") || ts[2].Top {
+							for _, a := range controllingConds(c.Block()) {
+								if strings.Contains(desc(a.V), "arg#1") {
+									signAware = true
+								}
+							}
+							if strings.Contains(ts[2].String(), "arg#1") {
+								signAware = true
+							}
+						}
+						for _, a := range controllingConds(c.Block()) {
+							if strings.Contains(desc(a.V), "arg#1") {
+								signAware = true
+							}
+						}
+					}
+				})
+				R.decide("C13.h", kNewPS+":rescaling-covers-equality", "three squares: the correction of the rescaled bound depends on the sign of the statement (-2 for >=, +2 for <=)", signAware, "the bound is rescaled by "+got+" for both signs: with sign -1 and m == bound the difference is -2 and the prover refuses a true statement", P.Pos(fn.Pos()))
+			}},
 		Rule{ID: "C13.d", Explain: "CreateDisclosureProofBuilder refuses range statements on disclosed attributes and files every accepted statement's structure under its attribute index; Commit commits every filed structure with the attribute and randomiser of that index.",
 			Run: func(P *Program, R *Report) { statementFilingRule(P, R) }},
 	)
